@@ -145,4 +145,10 @@ C18_SourcesOnly(anc, p, nprop) ==
        /\ (s.k = "file" /\ s.d = t.d) => t.x = s.x
        /\ t.x => \/ (s.k = "file" /\ s.x /\ (s.d = t.d \/ (a.k = "file" /\ a.d = s.d)))
                  \/ (a.k = "file" /\ a.x /\ a.d = t.d)
+
+\* --- staging dependencies (core/stage.go TransitionDependencies) -----------------
+\* every file the transitions will create, as (path, digest), except file-to-file
+\* transitions that only change the executable bit
+FilesOf(path, e) == {[path |-> path \o q, d |-> At(e, q).d] : q \in {r \in Nodes(e) : At(e, r).k = "file"}}
+Deps(cs) == UNION {IF c.old.k = "file" /\ c.new.k = "file" /\ c.old.d = c.new.d THEN {} ELSE FilesOf(c.path, c.new) : c \in cs}
 ====
